@@ -10,7 +10,7 @@ CONSTANTS
   Offs = {0}
   Ats <- AtsQuick
   Ranges = {2}
-  Funcs = {"count_over_time", "last_over_time"}
+  Funcs = {"count_over_time"}
   TsFuncs = {"timestamp"}
   SqRanges = {4}
   SqSteps = {2}
